@@ -6094,3 +6094,97 @@ def c14_end_error_wins(env):
 
 
 REGISTRY.setdefault("C14", []).append(c14_end_error_wins)
+
+
+# ---- C19: the listener leaves the SASL layer only after it has sent an OK outcome --------------------------
+
+
+def c19_listener_leaves_sasl_only_after_ok(env):
+    o = Obligation("c19_listener_starts_amqp_only_after_an_ok_outcome", "C19")
+    o.desc = "ConnectionAcceptor::negotiate_sasl_with_framed (listener with a SASL mechanism): on every path that leaves the SASL exchange for the AMQP header exchange (Transport::into_framed_codec / negotiate_amqp_with_framed) the code of the outcome that was just sent is OK -- there is no other way out of the exchange: not a bound on the number of frames, not an unexpected frame, not a challenge --; and the code that is tested is the code of the outcome frame handed to the transport"
+    fn = env.fn(r"^acceptor::connection::<impl at [^>]*>::negotiate_sasl_with_framed::\{closure#0\}$")
+    o.functions = [fn.name]
+    states = _coroutine_states(fn)
+    o.bounds = [f"coroutine body from every resume state {states} through one poll; loops unrolled 2 times per poll; every result of every await and of the mechanism's on_init / on_response"]
+    o.assumes = ["the mechanism's verdict is C19's other checks (PLAIN: Kani; SCRAM: c19_scram_*); SaslCode::clone copies"]
+    SC = env.enums.get("SaslCode")
+    if not SC or "Ok" not in SC:
+        raise mir.Unsupported("SaslCode layout not found")
+    i_code = env.fidx("SaslOutcome", "code")
+    txt = "\n".join(t for b in fn.blocks.values() for t in (b[0] + [b[1]]))
+    pm = re.search(r"discriminant\((\(\(\(\*_\d+\) as variant#\d+\)\.\d+: [\w:]*SaslCode\))\)", txt)
+    if not pm:
+        # the loop exit does not test a SaslCode at all
+        code_place = None
+    else:
+        code_place = pm.group(1)
+
+    def m_clone(ex_, st, callee, args, argvals, dty):
+        x = argvals[0]
+        k_ = 0
+        while isinstance(x, mir.Ref) and k_ < 4:
+            cont, key = ex_.resolve(st, list(x.path))
+            x = cont.get(key)
+            k_ += 1
+        if isinstance(x, mir.Agg) and "#d" in x:
+            c = mir.Agg("SaslCode")
+            c["#d"] = x["#d"]
+            return c
+        return None
+
+    models = [(r"^<(fe2o3_amqp_types::)?(sasl::)?SaslCode as Clone>::clone$", m_clone)]
+
+    def replay(m):
+        return "sasl_repeated_init 32", (lambda js: js.get("panic") or not js["never_opened"])
+
+    n = sends_seen = 0
+    for k in states:
+        ex, paths = _run_from_state(env, fn, k, models=models, max_visits=2, stop=None)
+        for i, p in enumerate(paths):
+            names = [c[0] for c in p.calls]
+            leaves = [j for j, c in enumerate(names) if re.search(r"::into_framed_codec$|negotiate_amqp_with_framed::<", c)]
+            H = ex.assumptions + p.cond
+            # the code tested is the code of the outcome handed to the transport (segments that build the frame)
+            for j, c in enumerate(p.calls):
+                if not re.search(r"SinkExt<(frames::sasl::)?Frame>>::send$", c[0]) or len(c[1]) < 2:
+                    continue
+                fr = c[1][1]
+                oc = fr.get(("as", "Outcome")) if isinstance(fr, mir.Agg) else None
+                out = oc.get(0) if isinstance(oc, mir.Agg) else None
+                cd = out.get(i_code) if isinstance(out, mir.Agg) else None
+                if not (isinstance(cd, mir.Agg) and "#d" in cd) or code_place is None:
+                    continue
+                s = z3.Solver()
+                s.add(*(H + [fr["#d"] == env.enums["frames::sasl::Frame"]["Outcome"]] if "frames::sasl::Frame" in env.enums else H))
+                if s.check() != z3.sat:
+                    continue
+                try:
+                    saved = ex.read_place(p, code_place)
+                except Exception:  # noqa: BLE001
+                    saved = None
+                if isinstance(saved, mir.Agg) and "#d" in saved and leaves:
+                    sends_seen += 1
+                    o.prove(f"state{k}:path{i}:the-code-tested-is-the-code-sent", H, saved["#d"] == cd["#d"], replay=replay)
+            if not leaves:
+                continue
+            s = z3.Solver()
+            s.add(*H)
+            if s.check() != z3.sat:
+                continue
+            n += 1
+            if code_place is None:
+                o.prove(f"state{k}:path{i}:leaves-sasl-only-after-an-ok-outcome", H, z3.BoolVal(False), replay=replay)
+                continue
+            try:
+                saved = ex.read_place(p, code_place)
+            except Exception:  # noqa: BLE001
+                saved = None
+            if not (isinstance(saved, mir.Agg) and "#d" in saved):
+                o.prove(f"state{k}:path{i}:leaves-sasl-only-after-an-ok-outcome", H, z3.BoolVal(False), replay=replay)
+            else:
+                o.prove(f"state{k}:path{i}:leaves-sasl-only-after-an-ok-outcome", H, saved["#d"] == SC["Ok"], replay=replay)
+    o.cover("paths that leave the SASL exchange", [z3.BoolVal(n > 0)])
+    return [o]
+
+
+REGISTRY.setdefault("C19", []).append(c19_listener_leaves_sasl_only_after_ok)
